@@ -920,6 +920,269 @@ example : Reachable demoCfg 0 (rrun (init demoCfg 0) [.create 1 [5], .lookup 5 2
 
 example : ((Bucket.new 1000 1 3).runAllow 1000 [0, 0, 0, 0, 500, 500, 0]).2 = 4 := by decide
 
+/-! ## connection slots are exactly the open sockets
+
+With `max-ws-connections` configured, the limiter's counter equals the number of sockets whose handler is running, after
+every handler-level history in which connection ids are fresh (the server draws them at random): the bound of
+`C14_limits` on the counter is a bound on the concurrently open WebSocket connections. -/
+
+structure Slots (h : HSt) : Prop where
+  count : h.st.cfg.maxWS > 0 → h.st.inUse = h.socks.length
+  nodup : (h.socks.map (·.conn)).Nodup
+
+def freshConn (h : HSt) : Ev → Prop
+  | .wsOpen _ _ _ _ conn _ => ∀ m ∈ h.socks, m.conn ≠ conn
+  | _ => True
+
+theorem rstep_inUse_other (s : St) (o : ROp) (h1 : o ≠ .acquire) (h2 : o ≠ .release) : (rstep s o).1.inUse = s.inUse := by
+  cases o <;> simp only [rstep] <;> (try (repeat' split)) <;> simp_all
+
+theorem rrun_closeOps_inUse (s : St) (m : Member) :
+    (rrun s (closeOps s.cfg m)).inUse = if s.cfg.maxWS > 0 then s.inUse - 1 else s.inUse := by
+  unfold closeOps
+  by_cases hs : m.role = .sender <;> by_cases hw : s.cfg.maxWS > 0 <;>
+    simp [hs, hw, rrun, rstep]
+
+theorem rrun_closeOps_cfg (s : St) (cfg : Cfg) (m : Member) : (rrun s (closeOps cfg m)).cfg = s.cfg := rrun_cfg _ _
+
+theorem rrun_flat_closeOps_inUse (s : St) (ks : List Member) (hw : s.cfg.maxWS > 0) :
+    (rrun s (ks.flatMap (closeOps s.cfg))).inUse = s.inUse - ks.length := by
+  induction ks generalizing s with
+  | nil => simp [rrun]
+  | cons k ks ih =>
+    simp only [List.flatMap_cons, rrun_append, List.length_cons]
+    have hc : (rrun s (closeOps s.cfg k)).cfg = s.cfg := rrun_cfg _ _
+    have := ih (rrun s (closeOps s.cfg k)) (by rw [hc]; exact hw)
+    rw [hc] at this
+    rw [this, rrun_closeOps_inUse, if_pos hw]
+    omega
+
+theorem wsRegister_inUse (s : St) (x : Sess) (conn peer : Nat) (role : Role) (ops : List ROp) (held : Bool) :
+    (wsAdmit s x conn peer role ops held).1.inUse =
+      if (wsAdmit s x conn peer role ops held).2.1 = .opened x.id then s.inUse
+      else if held then s.inUse - 1 else s.inUse := by
+  simp only [wsAdmit]
+  by_cases hc : s.cfg.maxRecv > 0 ∧ role = .receiver ∧ receiversOf s.members x.id ≥ s.cfg.maxRecv
+  · cases held <;> simp [rstep, hc]
+  · simp [rstep, hc]
+
+theorem wsAdmit_out (s : St) (x : Sess) (conn peer : Nat) (role : Role) (ops : List ROp) (held : Bool) :
+    (wsAdmit s x conn peer role ops held).2.1 = .opened x.id ∨
+    (wsAdmit s x conn peer role ops held).2.1 = .tooMany "receiver limit reached" := by
+  simp only [wsAdmit]
+  by_cases hc : s.cfg.maxRecv > 0 ∧ role = .receiver ∧ receiversOf s.members x.id ≥ s.cfg.maxRecv
+  · cases held <;> simp [rstep, hc]
+  · simp [rstep, hc]
+
+def isOpened : Out → Bool
+  | .opened _ => true
+  | _ => false
+
+/-- what `/ws` does to the slot counter: +1 exactly when the socket is opened (and slots are configured) -/
+theorem wsOpen_inUse (s : St) (code peer : Nat) (role : Role) (mr : Option Int) (conn now : Nat) :
+    (wsOpen s code peer role mr conn now).1.inUse =
+      if isOpened (wsOpen s code peer role mr conn now).2.1 = true ∧ s.cfg.maxWS > 0 then s.inUse + 1 else s.inUse := by
+  have hlk : ∀ s1 o, rstep s (.lookup code now) = (s1, o) → s1.inUse = s.inUse ∧ s1.cfg = s.cfg := by
+    intro s1 o h
+    have h1 := rstep_inUse_other s (.lookup code now) (by simp) (by simp)
+    have h2 := rstep_cfg s (.lookup code now)
+    rw [h] at h1 h2
+    exact ⟨h1, h2⟩
+  simp only [wsOpen]
+  split
+  · simp [isOpened]
+  · split
+    · rename_i s1 x heq
+      obtain ⟨hi, hcfg⟩ := hlk _ _ heq
+      split
+      · simp [isOpened, hi]
+      · split
+        · simp [isOpened, hi]
+        · split
+          · rename_i e he
+            have : isOpened e = false := by
+              cases e <;> simp only [isOpened] <;> rename_i sid
+              split at he
+              · exact absurd rfl (mrCheck_not_opened (sid := sid) he)
+              · cases he
+            simp [this, hi]
+          · simp only [wsAcquire, hcfg]
+            by_cases hw : s.cfg.maxWS > 0
+            · simp only [hw, if_true, and_true]
+              by_cases hfull : s1.inUse ≥ s.cfg.maxWS
+              · have : rstep s1 .acquire = (s1, .connLimit) := by simp [rstep, hcfg, hw, hfull]
+                simp [this, hi, isOpened]
+              · have : rstep s1 .acquire = ({ s1 with inUse := s1.inUse + 1 }, .acquired) := by
+                  simp [rstep, hcfg, hw, hfull]
+                simp only [this, List.cons_append, List.nil_append, hi]
+                rw [wsRegister_inUse]
+                rcases wsAdmit_out ⟨s1.cfg, s1.store, s1.members, s.inUse + 1⟩ x conn peer role [ROp.lookup code now, .acquire] true with ho | ho
+                · simp [ho, isOpened]
+                · simp [ho, isOpened]
+            · simp only [hw, if_false, and_false]
+              rw [wsRegister_inUse]
+              rcases wsAdmit_out s1 x conn peer role [ROp.lookup code now] false with ho | ho <;> simp [ho, hi, isOpened]
+    · rename_i s1 o hne heq
+      obtain ⟨hi, _⟩ := hlk _ _ heq
+      have : isOpened Out.notFound = false := rfl
+      simp [hi, this]
+
+theorem filter_ne_length {l : List Member} (hnd : (l.map (·.conn)).Nodup) {m : Member} (hm : m ∈ l) :
+    (l.filter (fun x => x.conn != m.conn)).length + 1 = l.length := by
+  induction l with
+  | nil => cases hm
+  | cons y ys ih =>
+    simp only [List.map_cons, List.nodup_cons, List.mem_map, not_exists, not_and] at hnd
+    rcases List.mem_cons.mp hm with rfl | hin'
+    · have hall : ys.filter (fun x => x.conn != m.conn) = ys := by
+        rw [List.filter_eq_self]
+        intro z hz
+        have := hnd.1 z hz
+        simp only [bne_iff_ne, ne_eq]
+        exact this
+      simp [List.filter_cons, hall]
+    · have hy : y.conn ≠ m.conn := fun hc => hnd.1 m hin' hc.symm
+      simp only [List.filter_cons, bne_iff_ne, ne_eq, hy, not_false_eq_true, if_true, List.length_cons]
+      have := ih hnd.2 hin'
+      omega
+
+theorem filter_not_add (l : List Member) (P : Member → Bool) :
+    (l.filter (fun m => !P m)).length + (l.filter P).length = l.length := by
+  induction l with
+  | nil => rfl
+  | cons y ys ih =>
+    simp only [List.filter_cons]
+    cases hp : P y <;> simp <;> omega
+
+theorem kicked_split (socks : List Member) (P : Member → Bool) (hnd : (socks.map (·.conn)).Nodup) :
+    (socks.filter (fun m => !(socks.filter P).any (fun k => k.conn == m.conn))).length + (socks.filter P).length = socks.length := by
+  have hcongr : socks.filter (fun m => !(socks.filter P).any (fun k => k.conn == m.conn)) = socks.filter (fun m => !P m) := by
+    apply List.filter_congr
+    intro y hy
+    congr 1
+    by_cases hp : P y = true
+    · rw [hp, List.any_eq_true]
+      exact ⟨y, List.mem_filter.mpr ⟨hy, hp⟩, by simp⟩
+    · have hp' : P y = false := by simpa using hp
+      rw [hp', List.any_eq_false]
+      intro k hk
+      simp only [List.mem_filter] at hk
+      simp only [beq_iff_eq]
+      intro hc
+      have : k = y := List.inj_on_of_nodup_map hnd hk.1 hy hc
+      rw [this] at hk
+      rw [hk.2] at hp'; cases hp'
+  rw [hcongr]
+  exact filter_not_add socks P
+
+theorem handle_slots {h : HSt} {e : Ev} (hs : Slots h) (hf : freshConn h e) : Slots (handle h e).1 := by
+  cases e with
+  | post mr now cands =>
+    simp only [handle]
+    split
+    · exact hs
+    · have hi := rstep_inUse_other h.st (.create now cands) (by simp) (by simp)
+      have hc := rstep_cfg h.st (.create now cands)
+      split <;> rename_i heq <;> (rw [heq] at hi hc; simp only at hi hc; exact ⟨fun hw => by simp only at hw ⊢; rw [hi]; exact hs.count (by rw [← hc]; exact hw), hs.nodup⟩)
+  | wsOpen code peer role mr conn now =>
+    have hin := wsOpen_inUse h.st code peer role mr conn now
+    have hcfg : (wsOpen h.st code peer role mr conn now).1.cfg = h.st.cfg := by
+      rw [wsOpen_is_rrun, rrun_cfg]
+    simp only [handle]
+    split
+    · rename_i s1 sid ops heq
+      rw [heq] at hin hcfg
+      simp only at hin hcfg
+      constructor
+      · intro hw
+        simp only at hw ⊢
+        rw [hcfg] at hw
+        simp only [hw, and_true, isOpened, if_true] at hin
+        rw [hin, hs.count hw]
+        simp
+      · simp only [List.map_append, List.map_cons, List.map_nil]
+        rw [List.nodup_append]
+        refine ⟨hs.nodup, by simp, ?_⟩
+        intro a ha b hb
+        simp only [List.mem_singleton] at hb
+        subst hb
+        obtain ⟨m, hm, rfl⟩ := List.mem_map.mp ha
+        exact hf m hm
+    · rename_i s1 o ops hno heq
+      rw [heq] at hin hcfg
+      simp only at hin hcfg
+      constructor
+      · intro hw
+        simp only at hw ⊢
+        rw [hcfg] at hw
+        have : isOpened o = false := by
+          cases o <;> simp only [isOpened]
+          rename_i sid
+          exact absurd rfl (hno sid)
+        simp only [this, Bool.false_eq_true, false_and, if_false] at hin
+        rw [hin]; exact hs.count hw
+      · exact hs.nodup
+  | wsClose conn =>
+    simp only [handle]
+    split
+    · rename_i m hm
+      have hmem : m ∈ h.socks := List.mem_of_find?_eq_some hm
+      have hmc : m.conn = conn := by simpa using List.find?_some hm
+      constructor
+      · intro hw
+        simp only at hw ⊢
+        rw [rrun_cfg] at hw
+        rw [rrun_closeOps_inUse, if_pos hw, hs.count hw]
+        -- exactly one socket carries this connection id
+        have hlen := filter_ne_length hs.nodup hmem
+        rw [hmc] at hlen
+        omega
+      · exact hs.nodup.sublist (List.Sublist.map _ List.filter_sublist)
+    · exact hs
+  | timer sid =>
+    simp only [handle]
+    constructor
+    · intro hw
+      simp only at hw ⊢
+      rw [rrun_cfg] at hw
+      simp only [List.cons_append, List.nil_append, rrun]
+      have hc1 : (rstep (rstep h.st (.closeSession sid)).1 (.delete sid)).1.cfg = h.st.cfg := by
+        rw [rstep_cfg, rstep_cfg]
+      have hi1 : (rstep (rstep h.st (.closeSession sid)).1 (.delete sid)).1.inUse = h.st.inUse := by
+        rw [rstep_inUse_other _ _ (by simp) (by simp), rstep_inUse_other _ _ (by simp) (by simp)]
+      have key := rrun_flat_closeOps_inUse (rstep (rstep h.st (.closeSession sid)).1 (.delete sid)).1
+        (h.socks.filter (fun m => h.st.members.any (fun x => x.conn == m.conn && x.sid == sid))) (by rw [hc1]; exact hw)
+      rw [hc1] at key
+      rw [key, hi1, hs.count hw]
+      -- the sockets that stay are exactly those that were not kicked
+      have := kicked_split h.socks (fun m => h.st.members.any (fun x => x.conn == m.conn && x.sid == sid)) hs.nodup
+      omega
+    · exact hs.nodup.sublist (List.Sublist.map _ List.filter_sublist)
+
+theorem slots_init (cfg : Cfg) (ttl : Nat) : Slots (hinit cfg ttl) := by
+  constructor <;> simp [hinit, init]
+
+/-- histories in which every `/ws` request carries a fresh connection id -/
+def FreshRun : HSt → List Ev → Prop
+  | _, [] => True
+  | h, e :: es => freshConn h e ∧ FreshRun (handle h e).1 es
+
+theorem srun_slots {h : HSt} (hs : Slots h) (es : List Ev) (hf : FreshRun h es) : Slots (srun h es) := by
+  induction es generalizing h with
+  | nil => exact hs
+  | cons e es ih => exact ih (handle_slots hs hf.1) hf.2
+
+/-- **concurrently open WebSocket connections never exceed `max-ws-connections`** -/
+theorem C14_open_sockets_bounded (cfg : Cfg) (ttl : Nat) (es : List Ev) (hf : FreshRun (hinit cfg ttl) es)
+    (hw : cfg.maxWS > 0) : (srun (hinit cfg ttl) es).socks.length ≤ cfg.maxWS := by
+  have hs := srun_slots (slots_init cfg ttl) es hf
+  obtain ⟨hinv, hreach⟩ := C14_limits_handlers cfg ttl es
+  have hcfg := reachable_cfg hreach
+  have h1 := hs.count (by rw [hcfg]; exact hw)
+  have h2 := hinv.connCap (by rw [hcfg]; exact hw)
+  rw [hcfg] at h2
+  omega
+
 /-! ## the decision points of the source, as regenerated on this run (xlate, `Gen/Shapes.lean`)
 
 The model's guards were transcribed from these expressions; a change of any of them in /repo changes the generated
